@@ -1,7 +1,8 @@
 """C13: EDF / FIFO / LSF honour their priority order (no priority inversion).
 
-Direct calls of schedule() on generated states with single-worker pools (the
-placement location is then unambiguous) and an independent fit oracle."""
+Direct calls of schedule() on generated states and an independent fit oracle.  Most pools
+have one worker (the location of a placement is then unambiguous); on two-worker pools the
+oracle quantifies over every location the higher/equal-priority placements may have."""
 import logging
 import random
 
@@ -55,29 +56,68 @@ class PriorityCheck:
             types = ["CPU", "GPU"][:rng.randint(1, 2)]
             npools = rng.randint(1, 4)
             pools, caps = [], []
+            # caps[p] / used[p]: one dict per worker of pool p (most pools have one worker: the location of a placement is
+            # then unambiguous; with two workers the oracle quantifies over the possible locations, see surely_fits)
+            multi = rng.random() < 0.4
+            workers_of = []
             for p in range(npools):
-                cap = {t: rng.randint(1, 4) for t in types if rng.random() < 0.85} or {types[0]: rng.randint(1, 4)}
-                res = wl.Resources(resource_vector={wl.Resource(name=t, _id=None): q for t, q in cap.items()}, _logger=lg)
-                w = wk.Worker(name=f"W{p}", resources=res, _logger=lg)
-                pools.append(wk.WorkerPool(name=f"P{p}", workers=[w], _logger=lg))
-                caps.append(cap)
+                wcaps, ws = [], []
+                for wi in range(2 if (multi and rng.random() < 0.6) else 1):
+                    cap = {t: rng.randint(1, 4) for t in types if rng.random() < 0.85} or {types[0]: rng.randint(1, 4)}
+                    res = wl.Resources(resource_vector={wl.Resource(name=t, _id=None): q for t, q in cap.items()}, _logger=lg)
+                    ws.append(wk.Worker(name=f"W{p}{wi}", resources=res, _logger=lg))
+                    wcaps.append(cap)
+                pools.append(wk.WorkerPool(name=f"P{p}", workers=ws, _logger=lg))
+                workers_of.append(ws)
+                caps.append(wcaps)
             wps = wk.WorkerPools(pools)
             # partial occupancy by running tasks outside the workload
-            used = [dict.fromkeys(c, 0) for c in caps]
+            used = [[dict.fromkeys(c, 0) for c in wc] for wc in caps]
             job0 = wl.Job(name="occ")
             for p in range(npools):
-                if rng.random() < 0.5:
-                    req = {t: rng.randint(0, caps[p][t]) for t in caps[p]}
-                    req = {t: q for t, q in req.items() if q > 0}
-                    if not req:
-                        continue
-                    st = wl.ExecutionStrategy(resources=wl.Resources(
-                        resource_vector={wl.Resource(name=t, _id="any"): q for t, q in req.items()}, _logger=lg),
-                        batch_size=1, runtime=EventTime(20, US))
-                    occ = wl.Task(name=f"occ{p}", task_graph="occ", job=job0, deadline=EventTime(999, US), _logger=lg)
-                    pools[p].place_task(occ, execution_strategy=st)
-                    for t, q in req.items():
-                        used[p][t] += q
+                for wi, w in enumerate(workers_of[p]):
+                    if rng.random() < 0.5:
+                        req = {t: rng.randint(0, caps[p][wi][t]) for t in caps[p][wi]}
+                        req = {t: q for t, q in req.items() if q > 0}
+                        if not req:
+                            continue
+                        st = wl.ExecutionStrategy(resources=wl.Resources(
+                            resource_vector={wl.Resource(name=t, _id="any"): q for t, q in req.items()}, _logger=lg),
+                            batch_size=1, runtime=EventTime(20, US))
+                        occ = wl.Task(name=f"occ{p}{wi}", task_graph="occ", job=job0, deadline=EventTime(999, US), _logger=lg)
+                        pools[p].place_task(occ, execution_strategy=st, worker_id=w.id)
+                        for t, q in req.items():
+                            used[p][wi][t] += q
+            if any(len(wc) > 1 for wc in caps):
+                bump("invocations_with_multi_worker_pool")
+
+            def assignments(pi, demands):
+                """every way of putting `demands` (list of {type: q}) on the workers of pool pi within capacity, on top of the
+                occupants; yields the resulting per-worker usage"""
+                nw = len(caps[pi])
+
+                def rec(k, use):
+                    if k == len(demands):
+                        yield use
+                        return
+                    for wi in range(nw):
+                        if all(caps[pi][wi].get(t, 0) - use[wi].get(t, 0) >= q for t, q in demands[k].items()):
+                            nxt = [dict(x) for x in use]
+                            for t, q in demands[k].items():
+                                nxt[wi][t] = nxt[wi].get(t, 0) + q
+                            yield from rec(k + 1, nxt)
+                yield from rec(0, [dict(x) for x in used[pi]])
+
+            def surely_fits(pi, demands, strategies):
+                """True iff pool pi can hold `demands` at all and, WHEREVER they were put, some worker still has room for one of
+                `strategies`; None if the demands cannot be placed at all (then the answer itself is over capacity)"""
+                any_assignment = False
+                for use in assignments(pi, demands):
+                    any_assignment = True
+                    if not any(all(caps[pi][wi].get(t, 0) - use[wi].get(t, 0) >= q for t, q in req.items())
+                               for (req, rt) in strategies for wi in range(len(caps[pi]))):
+                        return False
+                return True if any_assignment else None
             ntasks = rng.randint(3, 8)
             tied = rng.random() < 0.5
             tasks, specs, graphs = [], [], {}
@@ -136,8 +176,13 @@ class PriorityCheck:
             if unplaced:
                 bump("invocations_with_unplaced")
                 nontrivial.add(case_hash([pname, now, caps, used, specs]))
+            def demand_of(p):
+                d = {}
+                for res, q in p.execution_strategy.resources.resources:
+                    d[res.name] = d.get(res.name, 0) + q
+                return d
             for u in unplaced:
-                occ = [dict(x) for x in used]
+                hp = [[] for _ in range(npools)]  # demands of the placed tasks of higher or equal priority, per pool
                 for k in range(ntasks):
                     if k == u:
                         continue
@@ -145,35 +190,29 @@ class PriorityCheck:
                     if p is None or p.placement_type != PT.PLACE_TASK or not p.is_placed():
                         continue
                     if keys[k] <= keys[u]:
-                        pi = pool_index[p.worker_pool_id]
-                        for res, q in p.execution_strategy.resources.resources:
-                            occ[pi][res.name] = occ[pi].get(res.name, 0) + q
+                        hp[pool_index[p.worker_pool_id]].append(demand_of(p))
                 bump("unplaced_judged")
-                for (req, rt) in specs[u]["strategies"]:
-                    for pi in range(npools):
-                        if all(caps[pi].get(t, 0) - occ[pi].get(t, 0) >= q for t, q in req.items()):
-                            viol.append(self._v(
-                                "priority_inversion",
-                                f"{pname} at now={now}: t{u} (key {keys[u]}) left unplaced although strategy {req} fits pool {pi} "
-                                f"(capacity {caps[pi]}, used by occupants+higher/equal priority {occ[pi]}); keys={keys}; "
-                                f"decisions={[(('t%d' % k), (pool_index.get(dec[id(tasks[k])].worker_pool_id) if id(tasks[k]) in dec and dec[id(tasks[k])].placement_type == PT.PLACE_TASK else 'cancel')) for k in range(ntasks)]}",
-                                spec, idx))
-                            break
-                    else:
-                        continue
-                    break
-            # sanity of the oracle's own accounting: placed tasks must fit together
-            occ = [dict(x) for x in used]
-            for k in range(ntasks):
-                p = dec.get(id(tasks[k]))
-                if p is not None and p.placement_type == PT.PLACE_TASK and p.is_placed():
-                    pi = pool_index[p.worker_pool_id]
-                    for res, q in p.execution_strategy.resources.resources:
-                        occ[pi][res.name] = occ[pi].get(res.name, 0) + q
+                for pi in range(npools):
+                    verdict = surely_fits(pi, hp[pi], specs[u]["strategies"])
+                    if len(caps[pi]) > 1:
+                        bump("unplaced_judged_on_multi_worker_pool")
+                    if verdict:
+                        viol.append(self._v(
+                            "priority_inversion",
+                            f"{pname} at now={now}: t{u} (key {keys[u]}, strategies {specs[u]['strategies']}) left unplaced although one of its "
+                            f"strategies fits a worker of pool {pi} wherever the higher/equal-priority placements {hp[pi]} were put "
+                            f"(worker capacities {caps[pi]}, occupants {used[pi]}); keys={keys}; "
+                            f"decisions={[(('t%d' % k), (pool_index.get(dec[id(tasks[k])].worker_pool_id) if id(tasks[k]) in dec and dec[id(tasks[k])].placement_type == PT.PLACE_TASK else 'cancel')) for k in range(ntasks)]}",
+                            spec, idx))
+                        break
+            # sanity of the oracle's own accounting: the placed tasks of a pool must fit on its workers together
             for pi in range(npools):
-                for t, q in occ[pi].items():
-                    if q > caps[pi].get(t, 0):
-                        viol.append(self._v("placed_over_capacity", f"{pname}: pool {pi} {t}: {q} > {caps[pi].get(t, 0)}", spec, idx))
+                allp = [demand_of(dec[id(tasks[k])]) for k in range(ntasks)
+                        if id(tasks[k]) in dec and dec[id(tasks[k])].placement_type == PT.PLACE_TASK and dec[id(tasks[k])].is_placed()
+                        and pool_index[dec[id(tasks[k])].worker_pool_id] == pi]
+                if next(assignments(pi, allp), None) is None:
+                    viol.append(self._v("placed_over_capacity", f"{pname}: the placements {allp} of pool {pi} do not fit its workers "
+                                                                f"{caps[pi]} with occupants {used[pi]}", spec, idx))
             if len(samples) < 2 and unplaced:
                 samples.append({"policy": pname, "now": now, "pool_capacity": caps, "pre_occupied": used,
                                 "tasks": specs, "keys": keys,
@@ -197,12 +236,15 @@ class PriorityCheck:
             inconclusive.append(f"only {tot.get('invocations_with_unplaced', 0)} invocations with an unplaced task")
         if tot.get("invocations_with_ties", 0) < 100:
             inconclusive.append("too few invocations with priority ties")
+        if tot.get("unplaced_judged_on_multi_worker_pool", 0) < (300 if tier == "quick" else 5000):
+            inconclusive.append(f"only {tot.get('unplaced_judged_on_multi_worker_pool', 0)} unplaced tasks judged against a two-worker pool")
         for p in ("EDF", "FIFO", "LSF"):
             if tot.get("invocations_" + p, 0) < 300:
                 inconclusive.append(f"{p} invoked {tot.get('invocations_' + p, 0)} times")
         cov = {"evaluations": tot.get("invocations", 0), "distinct_nontrivial": len(nt),
                "rule": "direct schedule() calls of EDF/FIFO/LSF on generated states: 3-8 released tasks with 1-3 strategies, 1-4 "
-                       "single-worker pools partially occupied, many ties; non-trivial = distinct state in which at least one task was "
+                       "pools of one (mostly) or two workers, partially occupied, many ties; on a two-worker pool a task counts as wrongly unplaced only "
+                       "if it fits wherever the higher/equal-priority placements of that pool were put; non-trivial = distinct state in which at least one task was "
                        "left unplaced (the oracle is evaluated only there)",
                "samples": [s for r in results for s in r["samples"]][:4], "counters": tot}
         return {"violations": viol, "coverage": cov, "inconclusive": inconclusive,
